@@ -208,9 +208,14 @@ def run(case):
     viol = []
     seen_clause = set()
     outcomes_nodes = 0
+    first_bad = None
     for s in _strings(case):
         n += 1
+        if first_bad is not None and n - first_bad > 40:
+            break  # this block already fails the check: what is left of it adds nothing (and a defect that makes every later parse slower would keep the run from ever reporting)
         for clause, exp, obs in check_string(s):
+            if first_bad is None:
+                first_bad = n
             if clause in seen_clause:
                 continue
             seen_clause.add(clause)
